@@ -1,9 +1,91 @@
 import RefurbVerif.Wire.Basic
+import RefurbVerif.Model.Pos
+import RefurbVerif.Generated.Positions
 open Lean
 
 namespace RefurbVerif.Wire
+open RefurbVerif.Pos
 
-/-- driver verbs of this group (filled in by the property that owns it) -/
-def handlePos (_verb : String) (_j : Json) : Option Json := none
+namespace PosW
+
+/-- pieces travel as integers: `n ≥ 0` = `bytes n`, `-1` = `nl` -/
+def toPieces (j : Json) (k : String) : List Piece :=
+  (arr j k).map fun x =>
+    match x.getInt? with
+    | .ok i => if i < 0 then Piece.nl else Piece.bytes i.toNat
+    | _ => Piece.nl
+
+def intOf (x : Json) : Int := (x.getInt?).toOption.getD 0
+def natOf (x : Json) : Nat := (x.getNat?).toOption.getD 0
+
+def toSrcFile (j : Json) (k : String) : SrcFile :=
+  (arr j k).map fun l =>
+    match l with
+    | .arr #[b, .arr ts] =>
+      { bytes := natOf b,
+        toks := ts.toList.map fun t => match t with
+          | .arr #[c, n] => ⟨natOf c, natOf n⟩
+          | _ => ⟨0, 0⟩ }
+    | _ => { bytes := 0, toks := [] }
+
+def pairJ (p : Int × Int) : Json := Json.arr #[p.1, p.2]
+def locJ (p : Loc) : Json := Json.arr #[(p.line : Nat), (p.col : Nat)]
+def optInt (j : Json) (k : String) : Option Int :=
+  match j.getObjVal? k with
+  | .ok v => (v.getInt?).toOption
+  | _ => none
+
+def toLineField (j : Json) : LineField :=
+  match str j "field" with
+  | "line" => .line
+  | "endLine" => .endLine
+  | _ => Generated.expandtabsLineField
+
+end PosW
+open PosW
+
+/-- driver verbs of C07 -/
+def handlePos (verb : String) (j : Json) : Option Json :=
+  match verb with
+  | "pos_check" =>
+    let f := toSrcFile j "lines"
+    some (Json.arr ((arr j "ps").map (fun p =>
+      match p with
+      | .arr #[l, c] =>
+        let q : Int × Int := (intOf l, intOf c)
+        Json.arr #[lineOk f q, colOk f q, tokOk f q]
+      | _ => Json.null)).toArray)
+  | "pos_abc" =>
+    let l : AbcLayout := { pre := toPieces j "pre", klen := nat j "klen", g1 := toPieces j "g1", g2 := toPieces j "g2" }
+    let e := l.reported
+    some (Json.mkObj [("kw", locJ l.kw), ("value", locJ l.value), ("stored", pairJ (e.line, e.col)),
+      ("printed", pairJ (render e)), ("valid", decide (render e = l.kw.printed))])
+  | "pos_tabs" =>
+    let l : TabsLayout := { pre := toPieces j "pre", mid := toPieces j "mid", alen := nat j "alen" }
+    let e := l.reported (toLineField j)
+    some (Json.mkObj [("recv", locJ l.recv), ("attr", locJ l.attr), ("stored", pairJ (e.line, e.col)),
+      ("printed", pairJ (render e)), ("valid", decide (render e = l.attr.printed)),
+      ("field", match toLineField j with | .line => "line" | .endLine => "endLine")])
+  | "pos_extend" =>
+    let stmts : List Stmt := (arr j "stmts").map fun s =>
+      match s with
+      | .arr #[l, c, a] => { span := { line := intOf l, col := intOf c }, app := (a.getNat?).toOption }
+      | _ => { span := { line := 0, col := 0 }, app := none }
+    some (Json.arr ((listExtend stmts).map (fun e => pairJ (e.line, e.col))).toArray)
+  | "pos_from_node" =>
+    let s : Span := { line := int j "line", col := int j "col", endLine := optInt j "end_line", endCol := optInt j "end_col" }
+    let e := fromNode s
+    some (Json.mkObj [("stored", pairJ (e.line, e.col)), ("printed", pairJ (render e)),
+      ("line_end", optJ (fun (i : Int) => (i : Json)) e.lineEnd), ("column_end", optJ (fun (i : Int) => (i : Json)) e.colEnd)])
+  | "pos_abc_span" =>
+    let s : Span := { line := int j "line", col := int j "col", endLine := optInt j "end_line", endCol := optInt j "end_col" }
+    let e := abcShorthand s
+    some (Json.mkObj [("stored", pairJ (e.line, e.col)),
+      ("line_end", optJ (fun (i : Int) => (i : Json)) e.lineEnd), ("column_end", optJ (fun (i : Int) => (i : Json)) e.colEnd)])
+  | "pos_tabs_span" =>
+    let s : Span := { line := int j "line", col := int j "col", endLine := optInt j "end_line", endCol := optInt j "end_col" }
+    let e := expandtabs (toLineField j) s
+    some (Json.mkObj [("stored", pairJ (e.line, e.col))])
+  | _ => none
 
 end RefurbVerif.Wire
